@@ -12,7 +12,6 @@ use std::time::Duration;
 use async_trait::async_trait;
 use mithril_aggregator_client::AggregatorHttpClientError;
 use mithril_cardano_node_chain::chain_importer::CardanoChainDataImporter;
-use mithril_cardano_node_chain::test::double::DumbBlockScanner;
 use mithril_cardano_node_internal_database::signable_builder::CardanoDatabaseSignableBuilder;
 use mithril_common::StdResult;
 use mithril_common::api_version::APIVersionProvider;
@@ -368,7 +367,7 @@ impl SignerNode {
             let token = era_reader.read_era_epoch_token(current_epoch).await?;
             let era_checker = Arc::new(EraChecker::new(token.get_current_supported_era()?, token.get_current_epoch()));
             let api_version_provider = Arc::new(APIVersionProvider::new(era_checker.clone()));
-            let block_scanner = Arc::new(DumbBlockScanner::new());
+            let block_scanner = Arc::new(crate::chain::SimBlockScanner { view: view.clone() });
             let chain_data_store = Arc::new(SignerCardanoChainDataRepository::new(tx_pool.clone()));
             let transactions_importer = Arc::new(SignerChainDataImporter::new(Arc::new(CardanoChainDataImporter::new(
                 block_scanner.clone(),
